@@ -49,6 +49,8 @@ def is_known(e):
         return all(is_known(x) for x in e[3])
     if e[0] == "ref":
         return is_known(e[1])
+    if e[0] == "iterval":
+        return True
     return False
 
 
@@ -259,9 +261,58 @@ class Cases:
             return ("repeat", self.operand(st, rv["a"]), rv["n"])
         return ("unknown", rv.get("desc", k)[:80])
 
+    @staticmethod
+    def _as_list(e, by_ref):
+        """Elements of a known array / slice value (through references and unsizing casts); as references when iterated by
+        reference."""
+        refd = False
+        for _ in range(10):
+            if e[0] == "ref":
+                e = e[1]
+                refd = True
+            elif e[0] in ("cast", "copy", "move", "deref") and isinstance(e[1], tuple):
+                e = e[1]
+            else:
+                break
+        if e[0] == "agg" and e[1] == "array" and all(is_known(mir.strip_refs(x)) for x in e[3]):
+            return tuple(("ref", x) if (by_ref or refd) else x for x in e[3])
+        return None
+
+    def _iter_value(self, callee, args):
+        """Iterators over data this walk knows are values of the walk: ('iterval', remaining elements)."""
+        name = callee.rsplit("::", 1)[-1]
+        if not args:
+            return None
+        a0 = args[0]
+        if name == "iter" and ("[T]" in callee or "slice" in callee or "array" in callee):
+            els = self._as_list(a0, True)
+            return ("iterval", els) if els is not None else None
+        if name == "into_iter":
+            if a0[0] == "iterval":
+                return a0
+            els = self._as_list(a0, False)
+            return ("iterval", els) if els is not None else None
+        if a0[0] != "iterval":
+            return None
+        if name == "chain" and len(args) == 2:
+            b = args[1] if args[1][0] == "iterval" else None
+            if b is None:
+                els = self._as_list(args[1], False)
+                b = ("iterval", els) if els is not None else None
+            return ("iterval", a0[1] + b[1]) if b is not None else None
+        if name in ("copied", "cloned"):
+            return ("iterval", tuple(mir.strip_refs(x) for x in a0[1]))
+        if name == "rev":
+            return ("iterval", tuple(reversed(a0[1])))
+        return None
+
     def call_result(self, callee, args):
         """Fold the few pure functions whose meaning is fixed: derived equality on field-less enums, Option tests."""
         from . import common as C
+        if "iter" in callee.lower():
+            it = self._iter_value(callee, [a if a[0] == "iterval" else a for a in args])
+            if it is not None:
+                return it
         d = C._derived_discr_eq(self.ix, callee)
         if d is not None and len(args) == 2:
             a, b = mir.strip_refs(args[0]), mir.strip_refs(args[1])
@@ -353,7 +404,7 @@ class Cases:
 
     # ------------------------------------------------------------------------------ exploration
     def run(self):
-        st0 = {"loc": {}, "mem": {}}
+        st0 = {"loc": {}, "mem": {}, "refsrc": {}}
         stack = [(0, st0, Path(), {})]
         while stack:
             bi, st, path, visits = stack.pop()
@@ -378,6 +429,8 @@ class Cases:
                         continue
                     v = self.rvalue(st, rv)
                     self.assign(st, path, s["lhs"], v, bi)
+                    if rv.get("k") == "ref" and not rv["p"]["p"] and not s["lhs"]["p"]:
+                        st["refsrc"][s["lhs"]["l"]] = rv["p"]["l"]      # `&mut iter`: which local the reference is to
                 t = blk.term
                 k = t["k"]
                 if k == "goto":
@@ -398,6 +451,21 @@ class Cases:
                 if k == "call" or k == "tailcall":
                     args = [self.operand(st, a) for a in t["args"]]
                     callee = strip_generics(callee_name(t)) if "indirect" not in t else "<indirect>"
+                    # `next` on an iterator over data this walk knows: hand out the next element and advance
+                    if callee.endswith("::next") and len(t["args"]) == 1 and k == "call" and t.get("target") is not None:
+                        rp = op_place(t["args"][0])
+                        src = st["refsrc"].get(rp["l"]) if rp is not None and not rp["p"] else None
+                        itv = st["loc"].get(src) if src is not None else None
+                        if itv is not None and itv[0] == "iterval":
+                            if itv[1]:
+                                res = option("Some", [itv[1][0]])
+                                st["loc"][src] = ("iterval", itv[1][1:])
+                            else:
+                                res = option("None")
+                            self.assign(st, path, t["dest"], res, bi)
+                            visits = {}     # the loop made progress: its blocks may be walked again
+                            bi = t["target"]
+                            continue
                     res = self.call_result(callee, args)
                     folded = not (res[0] == "call" and res[1] == callee and res[2] == tuple(args))
                     if not folded:
@@ -435,7 +503,7 @@ class Cases:
                             p2.events = list(path.events)
                             p2.conds = list(path.conds) + [cond]
                             p2.blocks = list(path.blocks)
-                            st2 = {"loc": dict(st["loc"]), "mem": dict(st["mem"])}
+                            st2 = {"loc": dict(st["loc"]), "mem": dict(st["mem"]), "refsrc": dict(st["refsrc"])}
                             stack.append((tgt, st2, p2, visits))
                     if nxt is None:
                         path.end = "unreachable"
